@@ -80,6 +80,9 @@ func c14Gen(seed uint64, run int, tier string) *Case {
 				if r.Pct(6) {
 					ops = append(ops, Op{K: "closeh", A: []int64{int64(f), int64(r.Intn(8))}}) // one of the further handles is closed; the others go on
 				}
+				if r.Pct(6) {
+					ops = append(ops, Op{K: "badopen", A: []int64{int64(f), int64(r.Intn(8)), int64(r.Pick(0, 1, 2, 3, 16))}}) // a second Topen on an open fid is refused, and changes nothing
+				}
 				ops = append(ops, Op{K: kind, A: []int64{int64(f), int64(off), int64(cnt), int64(r.Intn(4))}})
 			}
 		}
@@ -176,10 +179,27 @@ func c14Caller(x *Ctx, u *UfsSys, clnt *go9p.Clnt, ci int, ops []Op) {
 			h := &c14Handle{fid: f.Fid, file: f}
 			files[int(op.a(0))] = &c14File{name: name, model: append([]byte(nil), content...), hs: []*c14Handle{h}, c14Handle: h}
 			os.Symlink(name, filepath.Join(u.Root, name+".lnk"))
+			if k := (int(op.a(0)) + int(x.C.Seed%97)) % 5; k >= 3 {
+				// the permission bits change under the open file (to read-only, to nothing): what is open stays open,
+				// and the server's own user (root here) opens it again all the same
+				os.Chmod(filepath.Join(u.Root, name), []os.FileMode{0o444, 0}[k-3])
+				x.Probe("permission-bits-removed-under-the-open-file")
+			}
 			continue
 		}
 		f := files[int(op.a(0))]
 		if f == nil {
+			continue
+		}
+		if op.K == "badopen" {
+			h := f.hs[int(op.a(1))%len(f.hs)]
+			was := h.fid.Mode
+			if err := clnt.Open(h.fid, uint8(op.a(2))); err == nil {
+				x.Probe("second-open-of-an-open-fid-accepted")
+			} else {
+				x.Probe("second-open-of-an-open-fid-refused")
+			}
+			h.fid.Mode = was // (the client library records the mode it asked for; the handle's real mode is the first one)
 			continue
 		}
 		if op.K == "closeh" {
